@@ -802,6 +802,7 @@ pub fn cmd_replay(args: &[String]) {
         let case: Value = serde_json::from_str(&line).expect("case json");
         rep.evaluations += (case.as_array().map(|a| a.len()).unwrap_or(1) - 1) as u64;
         rep.count("behaviours");
+        rep.case(&line);
         if idx % 5000 == first { rep.sample(json!(case.as_array().map(|a| a.iter().map(|s| s["op"].clone()).collect::<Vec<_>>()))); }
         unsafe { *progress = 0 };
         let pid = unsafe { libc::fork() };
